@@ -49,6 +49,16 @@ type TV struct {
 }
 
 type Gen struct {
+	// inlining (inline.go)
+	parent   *Gen
+	pfx      string
+	bind     map[ssa.Value]TV
+	inlRets  []inlineRet
+	ninl     int
+	inlined  []string
+	knownFns map[string]bool // function keys recorded in locks/functions.json (root Gen only)
+	outer    *Env            // inlined callee: the caller's variables at the call
+	outerAlias map[string]string
 	aliasOf map[string]string                       // renamed variables of fn: recorded name -> current name
 	aliasFn func(*ssa.Function) map[string]string // the same for callees
 	renames map[string]string                       // aliases actually used (reported)
@@ -122,6 +132,10 @@ type FrameInfo struct {
 }
 
 func (g *Gen) warn(f string, a ...interface{}) {
+	if g.parent != nil {
+		g.parent.warn(f, a...)
+		return
+	}
 	w := fmt.Sprintf(f, a...)
 	for _, x := range g.warnings {
 		if x == w {
@@ -132,6 +146,10 @@ func (g *Gen) warn(f string, a ...interface{}) {
 }
 
 func (g *Gen) declare(name, sortSig string) {
+	if g.parent != nil {
+		g.parent.declare(name, sortSig)
+		return
+	}
 	if _, ok := g.decl[name]; ok {
 		return
 	}
@@ -148,25 +166,36 @@ func (g *Gen) add(c string) {
 	if c == "true" || c == "" {
 		return
 	}
+	if g.parent != nil {
+		g.parent.add(c)
+		return
+	}
 	g.curPos++
 	g.cons = append(g.cons, cons{text: c, blk: g.curBlk, pos: g.curPos})
 }
 
 func (g *Gen) addGlobal(c string) {
+	if g.parent != nil {
+		g.parent.addGlobal(c)
+		return
+	}
 	g.cons = append(g.cons, cons{text: c, blk: -1})
 }
 
-func at(b int) string { return fmt.Sprintf("at_%d", b) }
+func (g *Gen) at(b int) string { return fmt.Sprintf("at_%s%d", g.pfx, b) }
 
 // guard adds a constraint that holds whenever the current block is reached.
 func (g *Gen) guard(c string) {
 	if c == "true" || c == "" {
 		return
 	}
-	g.add(implies(at(g.curBlk), c))
+	g.add(implies(g.at(g.curBlk), c))
 }
 
 func (g *Gen) fresh(prefix string, s Sort) string {
+	if g.parent != nil {
+		return g.parent.fresh(prefix, s)
+	}
 	g.nfresh++
 	n := fmt.Sprintf("%s!%d", sym(prefix), g.nfresh)
 	g.declConst(n, s)
@@ -174,6 +203,9 @@ func (g *Gen) fresh(prefix string, s Sort) string {
 }
 
 func (g *Gen) freshSig(prefix, sig string) string {
+	if g.parent != nil {
+		return g.parent.freshSig(prefix, sig)
+	}
 	g.nfresh++
 	n := fmt.Sprintf("%s!%d", sym(prefix), g.nfresh)
 	g.declare(n, sig)
@@ -184,6 +216,10 @@ func (g *Gen) freshSig(prefix, sig string) string {
 // obligations
 
 func (g *Gen) oblige(kind, detail, tag string, props []string, safety bool, cond string, pos token.Pos) *Obl {
+	if g.parent != nil {
+		// an obligation inside an inlined callee is one of the caller, under the callee's block guard
+		return g.parent.oblige(kind, detail, tag, props, safety, implies(g.at(g.curBlk), cond), pos)
+	}
 	name := g.key + "#" + kind
 	if tag != "" {
 		name += "[" + tag + "]"
@@ -275,6 +311,9 @@ func (g *Gen) heapIn(st map[string]string, name string) string {
 }
 
 func (g *Gen) newVersion(name string) string {
+	if g.parent != nil {
+		return g.parent.newVersion(name)
+	}
 	g.nver++
 	v := fmt.Sprintf("%s@%d", sym(name), g.nver)
 	g.declare(v, "() "+g.heapSort[name])
@@ -287,6 +326,10 @@ func (g *Gen) setHeap(name, term string) {
 }
 
 func (g *Gen) recordMod(name string) {
+	if g.parent != nil {
+		g.parent.recordMod(name)
+		return
+	}
 	if g.curBlk >= 0 {
 		if g.blockMod[g.curBlk] == nil {
 			g.blockMod[g.curBlk] = map[string]bool{}
@@ -521,9 +564,9 @@ func litName(s string) string {
 func (g *Gen) valName(v ssa.Value) string {
 	switch v := v.(type) {
 	case *ssa.Parameter:
-		return "p." + sym(v.Name())
+		return "p." + g.pfx + sym(v.Name())
 	case *ssa.FreeVar:
-		return "fv." + sym(v.Name())
+		return "fv." + g.pfx + sym(v.Name())
 	case *ssa.Global:
 		return "glob." + sym(pkgShort(v.Pkg.Pkg)+"."+v.Name())
 	case *ssa.Function:
@@ -531,11 +574,14 @@ func (g *Gen) valName(v ssa.Value) string {
 	case *ssa.Builtin:
 		return "builtin." + v.Name()
 	}
-	return "v." + sym(v.Name())
+	return "v." + g.pfx + sym(v.Name())
 }
 
 // v returns the SMT term of an SSA value.
 func (g *Gen) v(x ssa.Value) string {
+	if tv, ok := g.bind[x]; ok {
+		return tv.T
+	}
 	switch c := x.(type) {
 	case *ssa.Const:
 		return g.constTerm(c)
@@ -758,7 +804,7 @@ func (g *Gen) edgeCond(p, s *ssa.BasicBlock) string {
 }
 
 func (g *Gen) taken(p, s *ssa.BasicBlock) string {
-	return and(at(p.Index), g.edgeCond(p, s))
+	return and(g.at(p.Index), g.edgeCond(p, s))
 }
 
 // ancestors in the cut CFG (back edges removed), including b itself.
@@ -875,10 +921,10 @@ func (g *Gen) run(pass1 map[int]map[string]bool) {
 	fn := g.fn
 	g.pass1 = pass1
 	for _, b := range fn.Blocks {
-		g.declConst(at(b.Index), SBool)
+		g.declConst(g.at(b.Index), SBool)
 	}
 	g.curBlk, g.curPos = -1, 0
-	g.addGlobal(at(0))
+	g.addGlobal(g.at(0))
 	// reachability of blocks
 	reach := map[int]bool{}
 	for _, b := range g.rpo {
@@ -898,9 +944,9 @@ func (g *Gen) run(pass1 map[int]map[string]bool) {
 			}
 		}
 		if len(ins) == 0 {
-			g.addGlobal(not(at(b.Index)))
+			g.addGlobal(not(g.at(b.Index)))
 		} else {
-			g.addGlobal(eq(at(b.Index), or(ins...)))
+			g.addGlobal(eq(g.at(b.Index), or(ins...)))
 		}
 	}
 	// entry: parameters
@@ -1264,7 +1310,7 @@ func (o *Obl) Query(sp *SpecPrelude, wantModel bool) string {
 		}
 		fmt.Fprintf(&body, "(assert %s)\n", c.text)
 	}
-	fmt.Fprintf(&body, "(assert %s)\n(assert (not %s))\n", at(o.blk), o.cond)
+	fmt.Fprintf(&body, "(assert %s)\n(assert (not %s))\n", g.at(o.blk), o.cond)
 	return g.assemble(sp, body.String(), wantModel)
 }
 
@@ -1364,6 +1410,6 @@ func (g *Gen) CoverQuery(sp *SpecPrelude, blk int) string {
 		}
 		fmt.Fprintf(&body, "(assert %s)\n", c.text)
 	}
-	fmt.Fprintf(&body, "(assert %s)\n", at(blk))
+	fmt.Fprintf(&body, "(assert %s)\n", g.at(blk))
 	return g.assembleOpt(sp, body.String(), false, true)
 }
